@@ -53,7 +53,9 @@ def instances(tier):
         for col in ((0,) if tier == "quick" else (0, 1, 2)):
             if tier == "quick" and name not in fq:
                 continue
-            L.append(Inst("kf-masklaw-%s-col%d" % (name, col), "C01/kf_mask.c", {"OP": op, "COLFIX": col}, link=[], unwind=6, timeout=900,
+            if name.startswith("HSL") and col:
+                continue        # HSL with colour sets 1, 2: 500-900 s each; colour set 0 is checked at both tiers
+            L.append(Inst("kf-masklaw-%s-col%d" % (name, col), "C01/kf_mask.c", {"OP": op, "COLFIX": col}, link=[], unwind=6, timeout=1800,
                           models=("env_stubs.c", "libm_stubs.c"),
                           desc={"layer": "float combiner: combining through a mask == combining the pre-masked source, bit-identical; mask alpha symbolic, colours from a menu"}))
     # float pipeline: value within one 8-bit step of the exact rational Render/PDF value (alphas concrete, colours symbolic)
